@@ -81,6 +81,14 @@ Proof.
   - rewrite Ln. unfold nlen. rewrite (Proofs.Wrs.filter_length_perm posw fam fam' P). reflexivity.
 Qed.
 
+Lemma count_cands : forall rs : list record,
+  length (filter (fun c : cand => 0 <? snd (fst c)) (map cand_of rs)) = length (filter posw rs).
+Proof.
+  induction rs as [|r t IH]; [reflexivity|]. cbn [map filter].
+  change (snd (fst (cand_of r))) with (r_weight r). change (posw r) with (0 <? r_weight r).
+  destruct (0 <? r_weight r); cbn [length]; rewrite IH; reflexivity.
+Qed.
+
 Definition dflt_rec : record := mkRec [] false None 0 0 0 [].
 
 Section Pick.
@@ -121,7 +129,10 @@ Proof.
     unfold Proofs.Wrs.in_open_range. cbn [Proofs.Wrs.du]. apply Hd. }
   destruct (index_from_nth cand_of dflt_rec rs []) as (Enth & Isnd). cbn [length app] in Enth, Isnd.
   fold cands in Enth, Isnd.
-  set (g := fun p : payload => nth (fst p) rs dflt_rec) in *.
+  set (g := fun p : payload => nth (fst p) rs dflt_rec).
+  assert (Enth' : map g (index_from 0 cands) = rs) by exact Enth.
+  assert (Isnd' : forall p, In p (index_from 0 cands) -> snd p = cand_of (g p)) by exact Isnd.
+  clear Enth Isnd. rename Enth' into Enth. rename Isnd' into Isnd.
   assert (Hin : forall p, In p (map snd res) -> In p (index_from 0 cands) /\ 0 < cand_weight (snd p)).
   { intros p Hp. apply in_map_iff in Hp as (it & <- & Hit).
     destruct (Hsound it Hit) as (dd & Hdd & _ & Hpay & Hw).
@@ -133,26 +144,25 @@ Proof.
   - unfold realise_pick, Model.Wrs.recs_or_nil. rewrite pick_rows_drows. fold cands. rewrite Hrec.
     rewrite !map_map. apply map_ext_in. intros it Hit.
     assert (Hp : In (snd it) (map snd res)) by (apply in_map; exact Hit).
-    destruct (Hin _ Hp) as (Hi & _). pose proof (Isnd _ Hi) as Es. fold (g (snd it)) in Es.
+    destruct (Hin _ Hp) as (Hi & _). pose proof (Isnd _ Hi) as Es.
     unfold rr_of_rec, cand_ttl, cand_addr. rewrite Es. unfold cand_of. cbn [fst snd].
     f_equal. symmetry. rewrite Forall_forall in Hrs. apply Hrs.
     rewrite <- Enth. apply in_map_iff. exists (snd it). split; [reflexivity|exact Hi].
-  - exists (map g restP). rewrite <- map_app. rewrite <- Enth at 2. apply Permutation_map. exact HP.
+  - exists (map g restP). rewrite <- map_app.
+    eapply Permutation_trans; [apply Permutation_map; exact HP|]. rewrite Enth. apply Permutation_refl.
   - apply Forall_forall. intros r Hr. apply in_map_iff in Hr as (p & <- & Hp).
     destruct (Hin p Hp) as (Hi & Hw). rewrite (Isnd _ Hi) in Hw. exact Hw.
-  - rewrite !map_length. rewrite Hlen. f_equal.
+  - rewrite !map_length. etransitivity; [exact Hlen|]. f_equal.
     unfold drows. rewrite <- (map_length (Proofs.Wrs.dpay payload)).
-    set (gg := fun p : payload => (ty =? ty) && (0 <? cand_weight (snd p))).
     assert (Ef : forall l, map (Proofs.Wrs.dpay payload)
                 (filter (fun dd => (Proofs.Wrs.dq payload dd =? ty) && (0 <? Proofs.Wrs.dw payload dd))
-                   (map (fun p => Proofs.Wrs.mkD payload ty (d (fst p)) (cand_weight (snd p)) p) l)) = filter gg l).
-    { induction l as [|a l IHl]; [reflexivity|]. cbn [map filter Proofs.Wrs.dq Proofs.Wrs.dw]. unfold gg at 2.
+                   (map (fun p => Proofs.Wrs.mkD payload ty (d (fst p)) (cand_weight (snd p)) p) l)) =
+                filter (fun p : payload => (ty =? ty) && (0 <? cand_weight (snd p))) l).
+    { induction l as [|a l IHl]; [reflexivity|]. cbn [map filter Proofs.Wrs.dq Proofs.Wrs.dw].
       destruct ((ty =? ty) && (0 <? cand_weight (snd a))); cbn [map Proofs.Wrs.dpay]; rewrite IHl; reflexivity. }
     rewrite Ef.
-    rewrite (index_from_count (fun c : cand => 0 <? cand_weight c) gg cands 0).
-    + unfold cands. clear. induction rs as [|r t IH]; [reflexivity|]. cbn [map filter]. unfold posw at 2, cand_of at 1, cand_weight at 1.
-      cbn [fst snd]. destruct (0 <? r_weight r); cbn [length]; rewrite IH; reflexivity.
-    + intros p. unfold gg. rewrite N.eqb_refl. reflexivity.
+    etransitivity; [apply (index_from_count (fun c : cand => 0 <? cand_weight c)); intros p; rewrite N.eqb_refl; reflexivity|].
+    exact (count_cands rs).
 Qed.
 
 (* the items Wrs.ARecord / AAAARecord contribute (none when no record would be served) *)
@@ -167,9 +177,7 @@ Lemma realise_wrs_items : forall ds i owner cls (max : N) ty (rs : list record),
 Proof.
   intros ds i owner cls max ty rs Hty Hd Hrs. unfold wrs_items.
   assert (Enp : npick max (map cand_of rs) = N.min max (nlen (filter posw rs))).
-  { unfold npick, npos. f_equal. unfold nlen. f_equal. clear.
-    induction rs as [|r t IH]; [reflexivity|]. cbn [map filter]. unfold posw at 2, cand_of at 1. cbn [fst snd].
-    destruct (0 <? r_weight r); cbn [length]; rewrite IH; reflexivity. }
+  { unfold npick, npos, nlen. f_equal. f_equal. exact (count_cands rs). }
   destruct (npick max (map cand_of rs) =? 0) eqn:E0.
   - exists []. split; [reflexivity|]. split; [exists rs; apply Permutation_refl|]. split; [constructor|].
     apply N.eqb_eq in E0. rewrite <- Enp, E0. reflexivity.
